@@ -25,9 +25,11 @@ class Unsupported(Exception):
 class Buf:
     """a mutable numeric buffer: length term + element closure (Int term -> Real term)"""
 
-    __slots__ = ("n", "elem", "owner", "ident", "mutable")
+    __slots__ = ("n", "elem", "owner", "ident", "mutable", "sct", "is_var")
 
     def __init__(self, n, elem, owner="fresh", mutable=True):
+        self.sct = None
+        self.is_var = False
         self.n = T.lift(n, T.INT)
         self.elem = elem
         self.owner = owner  # 'fresh' | ('in', name) | ('heap', desc)
